@@ -96,6 +96,50 @@ def run(ctx):
                 a, b = list(hs.values())[:2]
                 ctx.violation("%s-split" % what, "two structurally equal descriptors got different %s: %s vs %s" % (what, show(cases[a]), show(cases[b])),
                               {"calls_a": real[a][1]["calls"], "calls_b": real[b][1]["calls"], "calls": real[a][1]["calls"], "expect": "same"})
+    # ---- code -> spec over strings outside the enumerated pool: long values and splits that are adversarial for
+    # length-prefixed framing (a boundary moved by 2^8 or 2^16 bytes, the next length byte appearing as a character)
+    from grpa import oracle
+    batches = []
+
+    def framing_batch(w):
+        n = 256 ** w
+        la = (n + 65) % 256
+        A = chr(65)
+        c2 = "p" * (n - 1) + A + "q" * 65
+        ds = [{"name": "m", "help": "h", "cl": [["a", "x"], ["b", c2]], "vl": []},
+              {"name": "m", "help": "h", "cl": [["a", "x" + A + "p" * (n - 1)], ["b", "q" * 65]], "vl": []},
+              {"name": "m", "help": "h", "cl": [["a", "x" + A], ["b", "p" * (n - 1) + "q" * 65]], "vl": []},
+              {"name": "m", "help": "h" + "p" * (n - 1) + A + "q" * 65, "cl": [], "vl": []},
+              {"name": "m", "help": "h", "cl": [["p" * (n - 1) + "_" + "q" * 65, "v"]], "vl": []},
+              {"name": "m" + "p" * (n - 1), "help": "h", "cl": [["a", "A" + "q" * 65]], "vl": []},
+              {"name": "m", "help": "h", "cl": [["a", "p" * (n - 1) + "A" + "q" * 65]], "vl": []}]
+        return ds
+    batches.append(framing_batch(1))
+    if not quick:
+        batches.append(framing_batch(2))
+    long_pool = ["", "a", "a" * 127, "a" * 128, "a" * 129, "a" * 255, "a" * 256, "a" * 257, "a" * 127 + "ÿ", "ÿ" + "a" * 127]
+    batches.append([{"name": "m", "help": "h", "cl": [["a", v1], ["b", v2]], "vl": []} for v1 in long_pool[:6] for v2 in long_pool[:6]][:30])
+    batches.append([{"name": "m" + n, "help": "h" + h, "cl": [], "vl": vl} for n in ("", "a" * 200) for h in ("", "a" * 200, "a" * 199 + "$a") for vl in ([], ["a"], ["a", "b"], ["b", "a"])])
+    ojobs = []
+    for bi, ds in enumerate(batches):
+        for di, dsc in enumerate(ds):
+            ojobs.append({"id": len(ojobs), "calls": [{"op": "desc", "as": "d", "fq_name": dsc["name"], "help": dsc["help"], "var": dsc["vl"], "const": dsc["cl"]}, {"op": "descs", "obj": "d"}], "b": bi, "d": di})
+    ores = run_api(ctx, exe, [{"id": j["id"], "calls": j["calls"]} for j in ojobs], "long")
+    recs = [{"descs": []} for _ in batches]
+    for j in ojobs:
+        rs = ores[j["id"]]
+        if "ok" not in rs[0]:
+            continue
+        dsc = batches[j["b"]][j["d"]]
+        real_d = rs[1]["ok"][0]
+        recs[j["b"]]["descs"].append({"name": to_ranks(dsc["name"]), "help": to_ranks(dsc["help"]), "cl": [[to_ranks(n), to_ranks(v)] for n, v in dsc["cl"]], "vl": [to_ranks(v) for v in dsc["vl"]],
+                                      "id": real_d["id"], "dim": real_d["dim"]})
+    rej = oracle(ctx, "DescOracle", "AllOK", recs, "long", chunk=1)
+    for i in sorted(rej):
+        ctx.violation("long-or-framing-adversarial-strings", "identity / dimension pattern of batch %d (long strings, length-framing adversarial splits) differs from the structural one" % i,
+                      {"calls": [c for j in ojobs if j["b"] == i for c in j["calls"]][:40], "expect": "pattern"})
+    nvar += sum(len(r["descs"]) for r in recs)
+    ctx.cov["long_string_batches_judged_by_DescOracle"] = len(recs)
     ctx.cov.update({
         "traces_validated_against_impl": nvar,
         "descriptors": len(cases), "accepted_by_code": len(acc), "variants_executed": nvar, "classes": nclasses,
